@@ -147,6 +147,12 @@ func (c13) Generate(r *core.Rng, run int, tier string) *core.History {
 	for i := 0; i < nm; i++ {
 		np := r.Intn(5)
 		d := macroDef{name: fmt.Sprintf("mc%d", i), params: append([]string(nil), macroParamPool[:np]...)}
+		if np > 0 && nm > 1 && r.Bool(.25) {
+			// a parameter named like ANOTHER macro of the session (or like a constant): it is a new local binding of
+			// each expansion and must leave that macro alone
+			other := fmt.Sprintf("mc%d", (i+1+r.Intn(nm-1))%nm)
+			d.params[r.Intn(np)] = core.Pick(r, []string{other, other, "PA"})
+		}
 		d.tmpl = genTemplate(r, d.params, 0, map[string]int{})
 		defs = append(defs, d)
 	}
